@@ -144,6 +144,24 @@ async def _dep(loop, tried, mx, res_on, seq, swallow=False):
                 raise
         cont.append(True)
     act.__annotations__ = {"m": MessageDependency}
+    if swallow == "guard":
+        # the same program run by a DEPENDENCY of the actor that holds the handle; after a successful terminal action nothing of
+        # this delivery continues, the actor's body included
+        from typing import Annotated
+
+        from repid.dependencies import Depends
+        prog = act
+
+        async def guard(m):
+            await prog(m)
+            cont.clear()
+            return "passed"
+        guard.__annotations__ = {"m": MessageDependency}
+
+        async def act(g):      # noqa: F811
+            cont.append(True)
+        act.__annotations__ = {"g": Annotated[str, Depends(guard)]}
+        swallow = False
     r.actor(name="act", queue="q")(act)
     proc = _Processor(conn)
     res = await proc.actor_run(r.actors["act"], k2, p2, payload, conn)
@@ -193,6 +211,7 @@ def run(tier: str, seed: int, replay=None) -> int:
                         jobs.append(("dep", tried, mx, res_on, list(seq)))
                         if L <= 2:
                             jobs.append(("dep", tried, mx, res_on, list(seq), True))
+                            jobs.append(("dep", tried, mx, res_on, list(seq), "guard"))
         if tier == "quick":
             # the length-4 programs that interleave result setting and callback registration before one eager action
             for pre in itertools.product(["set_result", "set_exception", "add_callback"], repeat=3):
